@@ -136,4 +136,14 @@ void dom_regs(void) {
           }
           if (h_mine_str(in)) run_regs(in);
       } }
+    /* large queues filled to one below / exactly / one beyond their capacity, then drained partly, cleared and reused:
+     * capacities around 2^8 (an index or count field narrower than the capacity; error-available bit and MSS at every step) */
+    { static const int caps[] = {255, 256, 257, 300}; int ci, extra;
+      for (ci = 0; ci < 4; ci++)
+          for (extra = -1; extra <= 1; extra++) {
+              size_t k = (size_t) snprintf(in, sizeof in, "R %d s,1,4", caps[ci]);
+              for (i = 0; i < caps[ci] + extra && k + 64 < sizeof in; i++) k += (size_t) snprintf(in + k, sizeof in - k, " e,%d", codes[i % 5]);
+              k += (size_t) snprintf(in + k, sizeof in - k, " o o q0 o e,-200 o k e,-100 o o");
+              if (h_mine_str(in)) run_regs(in);
+          } }
 }
